@@ -9,10 +9,20 @@ From Teleport Require Import Model.Halt Model.HaltAgg Model.HaltCheck Proofs.Hal
 Local Open Scope N_scope.
 
 (** ** xibc client proposals (CreateClient / UpgradeClient / ToggleClient / RegisterRelayer over the
-    four client types).  For EVERY block time, EVERY module state in which the recent-signer keys have
-    the shape SetSigner writes, and EVERY proposal accepted by decoding + ValidateBasic, the handler
-    returns Ok or Err - never Panic - and keeps that state invariant. *)
+    four client types).  For EVERY block time, EVERY module state (the model does not restrict the
+    stored client state, consensus states or recent-signer keys in any way - in particular every state a
+    validated genesis can import) and EVERY proposal accepted by decoding + ValidateBasic, the handler
+    of /repo HEAD returns Ok or Err - never Panic. *)
 Theorem validated_never_panics_xibc_proposal : forall now s p,
+  xprop_validate p = Ok tt -> handle_xprop now head_strict s p <> Panic.
+Proof. exact handle_xprop_strict_safe. Qed.
+Print Assumptions validated_never_panics_xibc_proposal.
+
+(** Before 0d61436 (recent-signer keys indexed without a length check; finding
+    bsc-upgrade-malformed-signer-key, found by this check) the statement needed the state invariant
+    "every key under the recentSingers prefix has a separator", which the handlers keep but a validated
+    genesis can break (Refuted/C15_refuted.v). *)
+Theorem validated_never_panics_xibc_proposal_old_parser : forall now s p,
   xprop_validate p = Ok tt -> xstate_wf s ->
   handle_xprop now false s p <> Panic /\ (forall s', handle_xprop now false s p = Ok s' -> xstate_wf s').
 Proof.
@@ -20,55 +30,46 @@ Proof.
   - eapply osafe_not_panic; exact H.
   - intros s' E. rewrite E in H. exact H.
 Qed.
-Print Assumptions validated_never_panics_xibc_proposal.
+Print Assumptions validated_never_panics_xibc_proposal_old_parser.
 
 (** The four handlers separately (same statement restricted to one proposal type). *)
 Theorem validated_never_panics_create_client : forall now s t d chain cs k,
-  xprop_validate (PCreate t d chain cs k) = Ok tt -> xstate_wf s -> handle_xprop now false s (PCreate t d chain cs k) <> Panic.
+  xprop_validate (PCreate t d chain cs k) = Ok tt -> handle_xprop now head_strict s (PCreate t d chain cs k) <> Panic.
 Proof. intros. eapply validated_never_panics_xibc_proposal; eassumption. Qed.
 Print Assumptions validated_never_panics_create_client.
 
 Theorem validated_never_panics_upgrade_client : forall now s t d chain cs k,
-  xprop_validate (PUpgrade t d chain cs k) = Ok tt -> xstate_wf s -> handle_xprop now false s (PUpgrade t d chain cs k) <> Panic.
+  xprop_validate (PUpgrade t d chain cs k) = Ok tt -> handle_xprop now head_strict s (PUpgrade t d chain cs k) <> Panic.
 Proof. intros. eapply validated_never_panics_xibc_proposal; eassumption. Qed.
 Print Assumptions validated_never_panics_upgrade_client.
 
 Theorem validated_never_panics_toggle_client : forall now s t d chain cs k,
-  xprop_validate (PToggle t d chain cs k) = Ok tt -> xstate_wf s -> handle_xprop now false s (PToggle t d chain cs k) <> Panic.
+  xprop_validate (PToggle t d chain cs k) = Ok tt -> handle_xprop now head_strict s (PToggle t d chain cs k) <> Panic.
 Proof. intros. eapply validated_never_panics_xibc_proposal; eassumption. Qed.
 Print Assumptions validated_never_panics_toggle_client.
 
 Theorem validated_never_panics_register_relayer : forall now s t d a chains n,
-  xprop_validate (PRelayer t d a chains n) = Ok tt -> xstate_wf s -> handle_xprop now false s (PRelayer t d a chains n) <> Panic.
+  xprop_validate (PRelayer t d a chains n) = Ok tt -> handle_xprop now head_strict s (PRelayer t d a chains n) <> Panic.
 Proof. intros. eapply validated_never_panics_xibc_proposal; eassumption. Qed.
 Print Assumptions validated_never_panics_register_relayer.
 
-(** With the repaired recent-signer key parser (patch bsc-recent-signer-key.diff; [strict = true]) the
-    invariant is not needed: EVERY module state, including every state a validated genesis can import. *)
-Theorem validated_never_panics_xibc_proposal_any_state : forall now s p,
-  xprop_validate p = Ok tt -> handle_xprop now true s p <> Panic.
-Proof. exact handle_xprop_strict_safe. Qed.
-Print Assumptions validated_never_panics_xibc_proposal_any_state.
-
-(** Whole histories: starting from the empty module state (or any state with the invariant), any
-    sequence of validated proposals executed the way gov.EndBlocker does (state kept on success,
-    discarded on error, no recover) runs to the end. *)
+(** Whole histories: from ANY module state, any sequence of validated proposals executed the way
+    gov.EndBlocker does (state kept on success, discarded on error, no recover) runs to the end. *)
 Theorem validated_history_never_halts : forall now ps s,
-  (forall p, In p ps -> xprop_validate p = Ok tt) -> xstate_wf s ->
-  exists s', run_gov now s ps = Ok s' /\ xstate_wf s'.
-Proof. exact run_gov_safe. Qed.
+  (forall p, In p ps -> xprop_validate p = Ok tt) -> exists s', run_gov_head now s ps = Ok s'.
+Proof. exact run_gov_head_safe. Qed.
 Print Assumptions validated_history_never_halts.
 
-(** Initialize / UpgradeState of a validated client state, for every store with the invariant and every
-    consensus state (any type). *)
+(** Initialize / UpgradeState of a validated client state, for every client store and every consensus
+    state (any type). *)
 Theorem validated_never_panics_initialize : forall st cs k,
-  validate_client cs = Ok tt -> store_wf st -> initialize_gen false st cs k <> Panic.
-Proof. intros st cs k Hv Hwf. eapply osafe_not_panic. apply initialize_safe; assumption. Qed.
+  validate_client cs = Ok tt -> initialize_gen false st cs k <> Panic.
+Proof. intros st cs k Hv. eapply osafe_not_panic. apply initialize_nopanic; assumption. Qed.
 Print Assumptions validated_never_panics_initialize.
 
 Theorem validated_never_panics_upgrade_state : forall now st cs k,
-  validate_client cs = Ok tt -> store_wf st -> upgrade_state_gen now false false st cs k <> Panic.
-Proof. intros now st cs k Hv Hwf. eapply osafe_not_panic. apply upgrade_state_safe; assumption. Qed.
+  validate_client cs = Ok tt -> upgrade_state_gen now head_strict false st cs k <> Panic.
+Proof. intros now st cs k Hv. eapply osafe_not_panic. apply upgrade_state_strict_nopanic; assumption. Qed.
 Print Assumptions validated_never_panics_upgrade_state.
 
 (** ** aggregate proposals: for every oracle (module state with the pair invariant, bank state, EVM
@@ -125,8 +126,8 @@ Print Assumptions C15_panic_sites_covered.
 
 (** ** The executable monitor accepts every step of the model. *)
 Theorem C15_monitor_sound : forall now s p i,
-  xstate_wf s -> mon_steps i [(oclass (xprop_validate p), oclass (handle_xprop now false s p))] = [].
-Proof. intros; apply mon_steps_sound_x; assumption. Qed.
+  mon_steps i [(oclass (xprop_validate p), oclass (handle_xprop now head_strict s p))] = [].
+Proof. intros; apply mon_steps_sound_x_strict. Qed.
 Print Assumptions C15_monitor_sound.
 
 (** ** Non-vacuity: validated proposals of all four client types exist, and a history that creates,
@@ -148,13 +149,13 @@ Example C15_nonvacuous :
              PToggle (B "t") 1 (B "chain-a") (AnyVal ex_tss) (AnyVal ConsTSS);
              PRelayer (B "t") 1 true [B "chain-a"] 1] in
   forallb (fun p => Nat.eqb (oclass (xprop_validate p)) 0) ps = true /\
-  match run_gov 1767225600 [] ps with
+  match run_gov_head 1767225600 [] ps with
   | Ok s => option_map client_type (c_client (xget s (B "chain-a"))) = Some TTSS
   | _ => False
   end /\
   (* every step really executed (returned Ok, not a swallowed Err) *)
   forallb (fun n => Nat.eqb n 0)
     (fst (fold_left (fun acc p => let '(l, s) := acc in
-                       match handle_xprop 1767225600 false s p with Ok s' => (l ++ [0%nat], s') | _ => (l ++ [1%nat], s) end)
+                       match handle_xprop 1767225600 head_strict s p with Ok s' => (l ++ [0%nat], s') | _ => (l ++ [1%nat], s) end)
                     ps ([], []))) = true.
 Proof. vm_compute. repeat split; reflexivity. Qed.
